@@ -20,7 +20,14 @@ Definition lower_ascii_c (c : N) : N := if (65 <=? c) && (c <=? 90) then c + 32 
 Definition upper_ascii (s : str) : str := map upper_c s.
 Definition lower_ascii (s : str) : str := map lower_ascii_c s.
 
+(* value.endswith("\n") *)
+Definition endswith_lf (v : str) : bool :=
+  match last_char v with Some c => c =? 10 | None => false end.
+
 Section GopherPlus.
+  (* true: the repaired getblock, which keeps the final blank line of an
+     attribute text; false: the pinned one (plain splitlines) *)
+  Variable keep_final_blank : bool.
   Variable admin : str.            (* [protocols.gopherp.GopherPlusProtocol] admin *)
   Variable srvname : str.
   Variable srvport : Z.
@@ -30,11 +37,16 @@ Section GopherPlus.
   Definition supported_block_names (e : entry) : list str :=
     [lit "+INFO"; lit "+ADMIN"; lit "+VIEWS"] ++ map (fun kv => PLUSC :: fst kv) (e_ea e).
 
+  (* the text of an attribute is the file's lines joined by "\n"; splitlines()
+     alone loses a final blank line *)
+  Definition ea_body_lines (value : str) : list str :=
+    splitlines value ++ (if keep_final_blank && endswith_lf value then [[]] else []).
+
   (* the lines of an extended-attribute block, without CRLF *)
   Definition ea_block_lines (name : str) (value : str) : list str :=
-    (PLUSC :: name ++ [COLON]) :: map (fun x => SP :: x) (splitlines value).
+    (PLUSC :: name ++ [COLON]) :: map (fun x => SP :: x) (ea_body_lines value).
   Definition ea_block (name : str) (value : str) : str :=
-    PLUSC :: name ++ [COLON] ++ crlf ++ concat (map (fun x => SP :: x ++ crlf) (splitlines value)).
+    PLUSC :: name ++ [COLON] ++ crlf ++ concat (map (fun x => SP :: x ++ crlf) (ea_body_lines value)).
 
   (* getinfoblock: "+INFO: " + GopherProtocol.renderobjinfo(self, entry) *)
   Definition info_block (e : entry) : option str :=
